@@ -159,6 +159,21 @@ func TestCheck(t *testing.T) {
 		}
 		if err == nil {
 			r.Violation(rdr+":accepted:"+sigAccept, key, fmt.Sprintf("%s request accepted although %s (named provider %s)", rdr, why, named), nil)
+			return
+		}
+		// a rejection is not remembered as anything else: the same bytes again, to
+		// the same reader, are rejected again (the readers are package-level
+		// functions; anything they keep is shared by all callers)
+		for rep := 2; rep <= 3; rep++ {
+			var err2 error
+			if pn, m := vp.Guard(func() { _, _, err2 = rd.read(data) }); pn {
+				r.Violation(rdr+":panic", key, fmt.Sprintf("presentation %d: %s", rep, firstLine(m)), nil)
+				return
+			}
+			if err2 == nil {
+				r.Violation(rdr+":accepted-when-presented-again:"+sigAccept, key, fmt.Sprintf("a request rejected at first (%s) is accepted at presentation %d", why, rep), nil)
+				return
+			}
 		}
 	}
 
